@@ -918,48 +918,40 @@ class FunctionNormalizer(object):
 
     # -- comprehension / lambda variables get names of their own ------------------------------------------------
     def pass_scopes(self):
+        '''every comprehension / lambda binds variables of its own: they get names that occur nowhere else (<name>__c<k> /
+        <name>__l<k>, k = position of the comprehension / lambda in the function)'''
         fn = self.fn
-        changed = True
-        rounds = 0
-        while changed and rounds < 50:
-            changed = False
-            rounds += 1
-            for node in ast.walk(fn):
-                if isinstance(node, (ast.ListComp, ast.SetComp, ast.DictComp, ast.GeneratorExp)):
-                    bound = set()
-                    for g in node.generators:
-                        bound |= names_stored(g.target)
-                    inside = {id(x) for x in ast.walk(node)}
-                    first_iter = {id(x) for x in ast.walk(node.generators[0].iter)}
-                    clash = {b for b in bound if not b.endswith('__c') and any(
-                        isinstance(x, ast.Name) and x.id == b and (id(x) not in inside or id(x) in first_iter) for x in ast.walk(fn))}
-                    clash |= {b for b in bound if not b.endswith('__c') and any(a.arg == b for a in fn.args.posonlyargs + fn.args.args + fn.args.kwonlyargs)}
-                    if clash:
-                        mapping = {b: b + '__c' for b in clash}
-                        # a name may only be reused when no enclosing comprehension binds the same fresh name
-                        for x in ast.walk(node):
-                            if isinstance(x, ast.Name) and x.id in mapping and id(x) not in first_iter:
-                                x.id = mapping[x.id]
-                        changed = True
-                        break
-                if isinstance(node, ast.Lambda):
-                    a = node.args
-                    params = [x for x in a.posonlyargs + a.args + a.kwonlyargs] + ([a.vararg] if a.vararg else []) + ([a.kwarg] if a.kwarg else [])
-                    inside = {id(x) for x in ast.walk(node.body)}
-                    clash = [x for x in params if not x.arg.endswith('__l') and any(
-                        isinstance(y, ast.Name) and y.id == x.arg and id(y) not in inside for y in ast.walk(fn))]
-                    clash = [x for x in clash if x.arg not in ('self', 'cls')]
-                    if clash and not any(isinstance(y, ast.Lambda) and y is not node for y in ast.walk(node.body)):
-                        mapping = {x.arg: x.arg + '__l' for x in clash}
-                        # keyword-callable parameter names are part of a lambda's interface only for **-free calls; the
-                        # repository never calls its local lambdas by keyword
-                        for y in ast.walk(node.body):
-                            if isinstance(y, ast.Name) and y.id in mapping:
-                                y.id = mapping[y.id]
-                        for x in clash:
-                            x.arg = mapping[x.arg]
-                        changed = True
-                        break
+        k = 0
+        for node in _source_order(fn):
+            if isinstance(node, (ast.ListComp, ast.SetComp, ast.DictComp, ast.GeneratorExp)):
+                k += 1
+                bound = set()
+                for g in node.generators:
+                    bound |= names_stored(g.target)
+                bound = {b for b in bound if '__c' not in b and '__l' not in b}
+                if not bound:
+                    continue
+                first_iter = {id(x) for x in ast.walk(node.generators[0].iter)}
+                mapping = {b: '%s__c%d' % (b, k) for b in bound}
+                for x in ast.walk(node):
+                    if isinstance(x, ast.Name) and x.id in mapping and id(x) not in first_iter:
+                        x.id = mapping[x.id]
+            elif isinstance(node, ast.Lambda):
+                k += 1
+                a = node.args
+                params = [x for x in a.posonlyargs + a.args + a.kwonlyargs] + ([a.vararg] if a.vararg else []) + ([a.kwarg] if a.kwarg else [])
+                params = [x for x in params if '__l' not in x.arg and '__c' not in x.arg and x.arg not in ('self', 'cls')]
+                if not params:
+                    continue
+                # parameters that callers may pass by keyword keep their names
+                if a.kwonlyargs or a.defaults:
+                    continue
+                mapping = {x.arg: '%s__l%d' % (x.arg, k) for x in params}
+                for y in ast.walk(node.body):
+                    if isinstance(y, ast.Name) and y.id in mapping:
+                        y.id = mapping[y.id]
+                for x in params:
+                    x.arg = mapping[x.arg]
 
     # -- one name, several values: every definition that dominates its own uses gets a name of its own ----------
     def pass_webs(self):
@@ -1050,7 +1042,9 @@ class FunctionNormalizer(object):
                     kind = 'for'
                 else:
                     continue
-                if stores.get(name, 0) < 2 or name in declared or name in captured:
+                if stores.get(name, 0) < 2 or name in declared:
+                    continue
+                if name in captured and kind != 'assign':
                     continue
                 loads = [n for n in local_walk(fn) if isinstance(n, ast.Name) and n.id == name and isinstance(n.ctx, ast.Load)]
                 if kind in ('assign', 'cond'):
@@ -1094,6 +1088,15 @@ class FunctionNormalizer(object):
                 region_loads = [n for n in loads if id(n) in region_nodes]
                 if kind in ('assign', 'cond') and not region_loads:
                     continue
+                if name in captured:
+                    # closures read the variable when they run: the first web may be split off only when every closure over the
+                    # name is created behind the re-definition that ends the web, outside any loop
+                    if j is None or loops_by_stmt.get(id(st)):
+                        continue
+                    inner = [x for n2 in ast.walk(fn) if n2 is not fn and isinstance(n2, (ast.FunctionDef, ast.AsyncFunctionDef, ast.Lambda))
+                             for x in ast.walk(n2) if isinstance(x, ast.Name) and x.id == name]
+                    if any(id(x) in region_nodes or order.get(id(x), -1) < order[id(lst[j])] for x in inner):
+                        continue
                 ok = True
                 my_loops = loops_by_stmt.get(id(st), [])
                 for n in loads:
